@@ -17,6 +17,8 @@
    D <graph>                 big graphs: only "full pq0" and "full fibc" (+ "land pq0", "land fibc"): the Dijkstra
                              models, which dijkstra_pq_correct / dijkstra_fib_concrete_correct prove equal to sp
    K <graph> S <src> <N obs> spec decision procedure on ONE observed row: "row ok|fail"  (check_row)
+   E <graph>                 "events c0 .. c6": how many decrease_key calls of the concrete-heap run meet each heap
+                             situation (dk_class of Dijkstra_FibC_Model.v); also printed by M
    I <n> <n*n integers>      geodesic table -> "cur <qmat>" "old <qmat>" "mds <qmat>"
    J <n> <n*n integers> B <n*n num/den>   "mds ok|fail"     (check_mds on an observed matrix)
    <mat>  = "<r> <c> e e e ..." (row major, "inf" = None) | "OOB <site> <idx>" | "FUEL"
@@ -77,6 +79,11 @@ let out_trace tag (t : (nat * nat) list) =
   List.iter (fun (u, v) -> Buffer.add_string b (Printf.sprintf " %d %d" (int_of_nat u) (int_of_nat v))) t;
   print_string (Buffer.contents b); print_newline ()
 
+let out_events g_nbrs w nn =
+  let c = Array.make 7 0 in
+  List.iter (fun k -> let k = int_of_nat k in if k >= 0 && k < 7 then c.(k) <- c.(k) + 1) (full_events_fibc g_nbrs w nn);
+  print_string ("events " ^ String.concat " " (Array.to_list (Array.map string_of_int c))); print_newline ()
+
 let show_qmat tag (m : qc list list) =
   let b = Buffer.create 1024 in
   let r = List.length m and c = (match m with [] -> 0 | x :: _ -> List.length x) in
@@ -106,6 +113,7 @@ let handle line =
           out "sp" (DOk (sp_matrix g.nbrs w nn));
           out "full fibc" (full_matrix_fibc g.nbrs w nn);
           out_trace "trace fibc" (full_trace_fibc g.nbrs w nn);
+          out_events g.nbrs w nn;
           if g.lm <> [] then begin
             out "land pq0" (landmark_matrix_fixed PQ g.nbrs w pick_first_min nn g.lm);
             out "land fib0" (landmark_matrix_fixed FIB g.nbrs w pick_first_min nn g.lm);
@@ -140,6 +148,9 @@ let handle line =
             out "land pq0" (landmark_matrix_fixed PQ g.nbrs w pick_first_min nn g.lm);
             out "land fibc" (landmark_matrix_fibc g.nbrs w nn g.lm)
           end
+        | "E" ->
+          let g = read_graph () in
+          out_events g.nbrs (table_w g.w) (nat_of_int g.n)
         | "K" ->
           let g = read_graph () in
           let w = table_w g.w and nn = nat_of_int g.n in
